@@ -24,6 +24,8 @@ def setup_rr(cx):
     cx.uf('opos', [RefIdx], TInt)
     cx.uf('minv', [MolIdx], RefIdx)
     graphval = cx.uf('subgraph_of', [MolIdx], Val)
+    from pyvc.values import COERCIONS
+    COERCIONS[('Str', 'Val')] = cx.uf('str2val', [TStr], Val)      # attribute values that the code compares with string literals
     match = cx.val('match', TMap(RefIdx, MolIdx))
 
     def nodeview(heap, immut=None):
